@@ -207,6 +207,20 @@ func runC18(c *eng.Ctx) {
 				}
 				cancel2()
 				cancel3()
+				// the derived contexts are done now, the scope and its own context are not: they
+				// still lead to their scope (an operation that timed out cleans up through it)
+				c4, cancel4 := context.WithTimeout(ctx, time.Nanosecond)
+				<-c4.Done()
+				cancel4()
+				if ctx.Err() == nil {
+					for di, dctx := range []context.Context{c2, c3, c4} {
+						got, err := godi.FromContext(dctx)
+						c.R.Count("fromcontext_checks", 1)
+						if err != nil || got != h.S {
+							fs = append(fs, Finding{"fromcontext-wrong", fmt.Sprintf("derived-and-done%d", di), fmt.Sprintf("FromContext on a cancelled / expired context derived from the live context of s%d returned %v, %v", sc, got, err)})
+						}
+					}
+				}
 				if h.CtxKey != nil {
 					if v := ctx.Value(h.CtxKey); v == nil {
 						fs = append(fs, Finding{"ctx-values-lost", "explicit-ctx", fmt.Sprintf("s%d's context does not carry the value of the context passed to CreateScope", sc)})
